@@ -8,6 +8,7 @@ use std::panic::{catch_unwind, AssertUnwindSafe};
 mod ops;
 mod ops2;
 mod ops3;
+mod ops4;
 
 fn main() {
     std::panic::set_hook(Box::new(|_| {}));
